@@ -15,7 +15,7 @@ from cxx2c import ExtractionBreak
 BUILD = os.path.join(ROOT, 'build')
 STUBS = os.path.join(ROOT, 'stubs')
 CBMC_FLAGS = ['--object-bits', '12', '--conversion-check', '--no-malloc-may-fail', '--sat-solver', 'cadical']
-CBMC_TIMEOUT = int(os.environ.get('VERIF_CBMC_TIMEOUT', '300'))
+CBMC_TIMEOUT = int(os.environ.get('VERIF_CBMC_TIMEOUT', '1500'))   # the slowest contract run takes 200 s on an idle machine; a loaded one tripped a 300 s limit
 MEM_KB = 10 * 1024 * 1024
 
 def sh(cmd, timeout=None, cwd=None, mem_kb=None):
@@ -189,7 +189,7 @@ class Job:
         self.enforce, self.replace, self.loops, self.unwind = enforce, list(replace), loops, unwind
         self.extra_flags = list(extra_flags)
         self.meta = meta or {}
-        self.timeout = timeout or CBMC_TIMEOUT
+        self.timeout = max(timeout or 0, CBMC_TIMEOUT)     # unit timeouts can only lengthen the limit: a run cut short is a check that exits 2
         self.result = None
 
     def run(self):
